@@ -256,18 +256,24 @@ def pure_cases(rng, n):
   return out
 
 
-def doc_effect_term(cols_term, r, names_of):
-  """Generated effects of one doc-action repr on T (None for a schema action)."""
+def doc_effect_term(cols_term, r, names_of, present):
+  """Generated effects of one doc-action repr on T (None for a schema action).  `present`: the rows of the table
+  when the doc action runs (BulkRemoveRecord ignores rows that do not exist); updated."""
   k = r[0]
   if k in ('AddRecord', 'UpdateRecord'):
     r = ['Bulk' + k, 'T', [r[2]], {c: [v] for c, v in r[3].items()}]
     k = r[0]
   if k in ('BulkAddRecord', 'BulkUpdateRecord'):
     d = core.coq_list(['(%s, %s)' % (z(names_of(c)), core.zlist([0] * len(r[2]))) for c in r[3]])
+    if k == 'BulkAddRecord':
+      present.update(int(x) for x in r[2])
     return '(gen_doc_%s %s %s %s)' % (k, cols_term, core.zlist([int(x) for x in r[2]]), d)
   if k in ('RemoveRecord', 'BulkRemoveRecord'):
     rs = r[2] if k == 'BulkRemoveRecord' else [r[2]]
-    return '(gen_doc_BulkRemoveRecord %s (fun l => l) %s)' % (cols_term, core.zlist([int(x) for x in rs]))
+    t = '(gen_doc_BulkRemoveRecord %s (fun l => filter (fun x => zmem x %s) l) %s)' % (
+        cols_term, core.zlist(sorted(present)), core.zlist([int(x) for x in rs]))
+    present.difference_update(int(x) for x in rs)
+    return t
   return None
 
 
@@ -285,12 +291,13 @@ def effect_case(doc, repr_, model, snap, events):
     gen = '(gen_doBulkUpdateRecord %s (mkget %s) (fun l => l) (fun a => a) %s %s)' % (
         cols_term, coq_cells(snap['cells']), core.zlist([r for r, _ in model[2]]), coq_dict(model[1], model[2]))
   elif kind == 'BulkRemoveRecord':
-    gen = doc_effect_term(cols_term, repr_, names_of)
+    gen = doc_effect_term(cols_term, repr_, names_of, set(snap['cells']))
   elif kind == 'ApplyUndoActions':
     parts = []
+    present = set(snap['cells'])
     for r in reversed(repr_[1]):
       if len(r) > 1 and r[1] == 'T':
-        t = doc_effect_term(cols_term, r, names_of)
+        t = doc_effect_term(cols_term, r, names_of, present)
         if t is None:
           return None
         parts.append(t)
